@@ -1251,4 +1251,41 @@ impl<T: Config> P2PSession<T> {
             DesyncDetection::Off => (),
         }
     }
+
+    /// Verification hook: (disconnected, last received frame) per player handle, as this session
+    /// currently sees it.
+    #[cfg(feature = "verif-hooks")]
+    pub fn verif_connect_status(&self) -> Vec<(bool, Frame)> {
+        self.local_connect_status
+            .iter()
+            .map(|c| (c.disconnected, c.last_frame))
+            .collect()
+    }
+
+    /// Verification hook: sizes of all internal buffers of the session and its endpoints.
+    #[cfg(feature = "verif-hooks")]
+    pub fn verif_sizes(&self) -> crate::verif_hooks::SessionSizes {
+        let mut remotes: Vec<_> = self
+            .player_reg
+            .remotes
+            .values()
+            .map(UdpProtocol::verif_sizes)
+            .collect();
+        remotes.sort_by(|a, b| a.handles.cmp(&b.handles));
+        let mut spectators: Vec<_> = self
+            .player_reg
+            .spectators
+            .values()
+            .map(UdpProtocol::verif_sizes)
+            .collect();
+        spectators.sort_by(|a, b| a.handles.cmp(&b.handles));
+        crate::verif_hooks::SessionSizes {
+            event_queue: self.event_queue.len(),
+            pending_local_inputs: self.pending_local_inputs.len(),
+            outgoing_local_inputs: self.outgoing_local_inputs.len(),
+            local_checksum_history: self.local_checksum_history.len(),
+            remotes,
+            spectators,
+        }
+    }
 }
